@@ -402,7 +402,7 @@ def write_dump(c, rng, dist):
     if c.mems:
         # the regions get_memory() serves: a Memory64List, or a MemoryList - every thread has a null stack descriptor
         streams.append((9, memory64_list(c.mems)) if c.mem64 else (5, memory_list(c.mems)))
-        if c.mem64 and rng.chance(1, 2):
+        if c.mem64 and rng.chance(3, 4):
             streams.append((5, memory_list([(b ^ 0x100000, sz) for b, sz in c.mems[:2]])))      # a MemoryList next to it is not consulted
     # any order in the file
     for i in range(len(streams) - 1, 0, -1):
@@ -835,6 +835,8 @@ class C14(PropBase):
         c = self.make_case(rng, dist, short_streams=True, archs=H_ARCHS)
         if rng.chance(1, 2):
             c.mems, c.mem64 = [], 0
+        elif c.mems and rng.chance(1, 2):
+            c.mem64 = 1                      # a Memory64List (get_memory() prefers it to a MemoryList) - all descriptors are null here anyway
         c.threads = c.threads[:rng.choice([8, 8, 8, 33])]
         for t in c.threads:
             t["sidx"] = -1
